@@ -213,3 +213,44 @@ package git
 //@   props C03
 //@   modifies fresh, ghost lastremoteurls
 //@   ensures result0 == typed(lastremoteurls(), "map[string][]string")
+
+// C13 (and the tracked-path filter in general): how a .gitattributes line is
+// classified.  Every mention of the filter attribute - set, unset (-filter) or
+// unspecified (!filter), whatever its value - marks the line as one that says
+// something about the filter, and the line tracks the path exactly when that
+// value is "lfs"; such a line (or a lockable one) yields exactly one attribute
+// path with these two flags.
+//@ func AttrPathsFromReader
+//@   props C13
+//@   modifies fresh
+//@   loop 2 iter attr.K == FilterAttrib ==> hasFilter && tracked == (attr.V == "lfs")
+//@   loop 2 iter attr.K != FilterAttrib ==> hasFilter == iter(hasFilter) && tracked == iter(tracked)
+//@   loop 2 iter attr.K == LockableAttrib && attr.V == "true" ==> lockable
+//@   loop 1 iter hasFilter || lockable ==> len(paths) == iter(len(paths)) + 1 && paths[iter(len(paths))].Tracked == tracked && paths[iter(len(paths))].Lockable == lockable
+//@   loop 1 iter !(hasFilter || lockable) ==> len(paths) == iter(len(paths))
+// The attribute-file parser and macro expansion (library side of the above):
+// assumed to allocate their results only.
+//@ func github.com/git-lfs/git-lfs/v3/git/gitattr.ParseLines
+//@   assumed
+//@   props C13
+//@   modifies fresh
+//@ func (*github.com/git-lfs/git-lfs/v3/git/gitattr.MacroProcessor).ProcessLines
+//@   assumed
+//@   props C13
+//@   modifies fresh
+//@ iface (github.com/git-lfs/git-lfs/v3/git/gitattr.Line).Attrs
+//@   noeffect
+//@ iface (github.com/git-lfs/git-lfs/v3/git/gitattr.PatternLine).Pattern
+//@   noeffect
+//@ func github.com/git-lfs/git-lfs/v3/tools.TrimCurrentPrefix
+//@   assumed
+//@   props C13
+//@   noeffect
+
+// C05: dates handed to Git (`git log --since=...` for the retention windows of
+// prune) name their zone: the layout ends in the numeric zone offset, and it is
+// the caller's time that is formatted - a date without zone would be read by
+// Git in the local zone of the machine.
+//@ func FormatGitDate
+//@   props C05
+//@   at call (time.Time).Format:1 assert arg0__ == tm && arg1__ == "Mon Jan 2 15:04:05 2006 -0700"
